@@ -4,7 +4,7 @@
    plaintexts as 30 bytes. Exponents are integers. No proofs here. *)
 From Coq Require Import ZArith List Bool String.
 From Strand Require Import Base.ZUtil Model.Outcome Model.Codec Model.Sha512 Model.Keccak Model.Backend
-  Model.Zkp Model.Shuffler Model.Keymaker Model.Ristretto Model.RistrettoFast Model.RBackend Model.Rng Model.Exec.
+  Model.Zkp Model.Shuffler Model.Keymaker Model.Ristretto Model.RistrettoFast Model.RBackend Model.Ed25519 Model.Rng Model.Exec.
 Import ListNotations.
 Open Scope list_scope.
 Open Scope Z_scope.
@@ -351,13 +351,28 @@ Section ExecR.
     | _ => None
     end.
 
+  (* ---------- Ed25519 (Model/Ed25519.v): keys and signatures are byte strings ---------- *)
+  Definition execr_ed (op : string) (args : list val) : option val :=
+    match args with
+    | [VB seed] =>
+        if opis op "ed_pk" then Some (VB (ed_pk K PM seed)) else
+        if opis op "ed_pk_unreduced" then Some (VB (ed_pk_unreduced K PM seed)) else None
+    | [VB seed; VB msg] =>
+        if opis op "ed_sign" then Some (VB (ed_sign K PM seed msg)) else None
+    | [VB pk; VB sg; VB msg] =>
+        if opis op "ed_verify_z" then Some (omap VBool (ed_verify_zebra K PM pk sg msg)) else
+        if opis op "ed_verify_d" then Some (omap VBool (ed_verify_dalek K PM pk sg msg)) else None
+    | _ => None
+    end.
+
   Definition exec_r (op : string) (args : list val) : val :=
+    match execr_ed op args with Some v => v | None =>
     match execr_arith op args with Some v => v | None =>
     match execr_proto op args with Some v => v | None =>
     match execr_rng op args with Some v => v | None =>
     match execr_shuffle op args with Some v => v | None =>
     match execr_km op args with Some v => v | None => VBad
-    end end end end end.
+    end end end end end end.
 End ExecR.
 
 (* a ristretto correspondence case: operation, arguments, what the implementation returned *)
